@@ -45,7 +45,7 @@ def is_closer(line, c, n):
     return re.match(r"^ {0,3}" + re.escape(c) + "{" + str(n) + r",}[ \t]*$", line) is not None
 
 
-CONTAINERS = ["top", "quote", "bullet", "ordered", "quote-in-list"]
+CONTAINERS = ["top", "quote", "bullet", "ordered", "quote-in-list", "defn"]
 
 
 def wrap(lines, container):
@@ -61,12 +61,15 @@ def wrap(lines, container):
     if container == "quote-in-list":
         inner = ["> " + l if l else ">" for l in lines]
         return [("- " if i == 0 else "  ") + l for i, l in enumerate(inner)]
+    if container == "defn":
+        # the definition of a definition list (def_list plugin): first line after ":   ", the others indented by four
+        return ["term"] + [(":   " if i == 0 else "    ") + l if (l or i == 0) else "" for i, l in enumerate(lines)]
     raise ValueError(container)
 
 
 def find_code(tokens, container):
     path = {"top": [], "quote": ["block_quote"], "bullet": ["list", "list_item"], "ordered": ["list", "list_item"],
-            "quote-in-list": ["list", "list_item", "block_quote"]}[container]
+            "quote-in-list": ["list", "list_item", "block_quote"], "defn": ["def_list", "def_list_item"]}[container]
     cur = tokens
     for ty in path:
         nxt = [t for t in cur if t["type"] == ty]
@@ -80,7 +83,7 @@ def find_code(tokens, container):
 def fenced_case(rng):
     c = rng.choice("`~"); n = rng.randint(3, 6); k = rng.randint(0, 3)
     container = rng.choice(CONTAINERS)
-    info = rng.choice(["", "", "py", "lang extra", "c++", "a\\*b"])
+    info = rng.choice(["", "", "py", "lang extra", "c++", "a\\*b", "{.python}", "{#id}", "{r,echo=FALSE}", "{py:function}", "{.python .numberLines}", "{x"])
     body = [l for l in body_lines(rng, c, n) if not is_closer(l, c, n)]
     closed = rng.random() < 0.85
     ind = " " * k
@@ -89,7 +92,7 @@ def fenced_case(rng):
         lines.append(ind + c * (n + rng.randint(0, 2)))
     doc = "\n".join(wrap(lines, container)) + "\n"
     expected = "".join(l + "\n" for l in body)
-    return {"kind": "fenced", "container": container, "doc": doc, "expected": expected, "info": info, "closed": closed, "body": body}
+    return {"kind": "fenced", "container": container, "doc": doc, "expected": expected, "info": info, "closed": closed, "body": body, "directives": info.startswith("{") or rng.random() < 0.15}
 
 
 def indented_case(rng):
@@ -177,6 +180,8 @@ def oracle(ctx, n):
     hm = mistune.create_markdown(escape=True)
     ast_p = mistune.create_markdown(renderer=None, plugins=["table", "def_list", "strikethrough", "footnotes"])
     hm_p = mistune.create_markdown(escape=True, plugins=["table", "def_list", "strikethrough", "footnotes"])
+    ast_d = configs.make(configs.C("x", renderer="ast", directives="fenced"))
+    hm_d = configs.make(configs.C("x", directives="fenced"))
     def walk(ts):
         for t in ts:
             yield t
@@ -187,10 +192,11 @@ def oracle(ctx, n):
         r = ctx.rng.random()
         case = fenced_case(ctx.rng) if r < 0.6 else indented_case(ctx.rng) if r < 0.8 else span_case(ctx.rng)
         cnt += 1
-        plug = case["kind"] == "span" and case["container"] in ("cell", "defn")
+        plug = case["container"] in ("cell", "defn")
+        conv = (ast_d, hm_d) if case.get("directives") and not plug else (ast_p, hm_p) if plug else (ast, hm)
         try:
-            toks = (ast_p if plug else ast)(case["doc"])
-            out = (hm_p if plug else hm)(case["doc"])
+            toks = conv[0](case["doc"])
+            out = conv[1](case["doc"])
         except Exception as e:
             ctx.fail("exception", "conversion raised %r" % e, case)
             continue
